@@ -109,7 +109,9 @@ def analyse_function(chk, db, sigs, owner, kind, rec_q, f, state):
                           "%s: destroys the object held by parameter `%s` without resetting its state: %s" % (
                               astx.loc(f, badg[1].info), badg[1].root, L.show_path(badg[0])), {"where": astx.loc(f, badg[1].info)})
         # ---- L5 self-alias safety (copy assignment, member swap)
-        if f.get("special") == "copy_assign" or (f["n"] == "swap" and len(f["params"]) == 1):
+        # (move assignment: only for single-slot owners -- a vector that clears itself first moves from an empty range)
+        if f.get("special") == "copy_assign" or (f.get("special") == "move_assign" and kind == "slot") or \
+                (f["n"] == "swap" and len(f["params"]) == 1):
             pn = f["params"][0]["n"]
             by_value = "&" not in f["params"][0]["ty"]
             bad5 = None
